@@ -100,7 +100,9 @@ pub fn hex<'a>() -> impl chumsky::Parser<'a, &'a str, usize, Err<'a>> + Clone {
             text::digits(16)
                 .at_least(1)
                 .to_slice()
-                .map(|s: &str| usize::from_str_radix(s, 16).unwrap()),
+                .try_map(|s: &str, span| {
+                    usize::from_str_radix(s, 16).map_err(|e| Rich::custom(span, e))
+                }),
         )
         .padded()
         .labelled("hexidecimal number")
@@ -128,15 +130,14 @@ pub fn brkpt_at_line_parser<'a>() -> impl chumsky::Parser<'a, &'a str, Breakpoin
         .repeated()
         .to_slice()
         .then_ignore(just(':'))
-        .then(text::int(10).from_str().unwrapped())
+        .then(text::int(10).try_map(|s: &str, span| s.parse().map_err(|e| Rich::custom(span, e))))
         .map(|(file, line): (&str, u64)| BreakpointIdentity::Line(file.trim().to_string(), line))
         .padded()
 }
 
 pub fn brkpt_number<'a>() -> impl chumsky::Parser<'a, &'a str, BreakpointIdentity, Err<'a>> {
     text::int(10)
-        .from_str()
-        .unwrapped()
+        .try_map(|s: &str, span| s.parse().map_err(|e| Rich::custom(span, e)))
         .map(|number: u32| BreakpointIdentity::Number(number))
         .padded()
 }
@@ -343,8 +344,7 @@ impl Command {
                 sub_op(SOURCE_COMMAND_FUNCTION_SUBCOMMAND)
                     .to(Command::SourceCode(source_code::Command::Function)),
                 text::int(10)
-                    .from_str()
-                    .unwrapped()
+                    .try_map(|s: &str, span| s.parse().map_err(|e| Rich::custom(span, e)))
                     .map(|num| Command::SourceCode(source_code::Command::Range(num)))
                     .padded(),
             )))
@@ -400,8 +400,7 @@ impl Command {
                 sub_op2_w_arg(WATCH_REMOVE_SUBCOMMAND, WATCH_REMOVE_SUBCOMMAND_SHORT)
                     .ignore_then(choice((
                         text::int(10)
-                            .from_str()
-                            .unwrapped()
+                            .try_map(|s: &str, span| s.parse().map_err(|e| Rich::custom(span, e)))
                             .map(|number: u32| WatchpointIdentity::Number(number))
                             .padded(),
                         watchpoint_at_address(),
@@ -460,8 +459,7 @@ impl Command {
                     .to(Command::Thread(thread::Command::Current)),
                 sub_op_w_arg(THREAD_COMMAND_SWITCH_SUBCOMMAND)
                     .ignore_then(text::int(10))
-                    .from_str()
-                    .unwrapped()
+                    .try_map(|s: &str, span| s.parse().map_err(|e| Rich::custom(span, e)))
                     .map(|num| Command::Thread(thread::Command::Switch(num)))
                     .padded(),
             )))
@@ -471,7 +469,7 @@ impl Command {
             .ignore_then(choice((
                 sub_op(FRAME_COMMAND_INFO_SUBCOMMAND).to(Command::Frame(frame::Command::Info)),
                 sub_op(FRAME_COMMAND_SWITCH_SUBCOMMAND)
-                    .ignore_then(text::int(10).from_str().unwrapped())
+                    .ignore_then(text::int(10).try_map(|s: &str, span| s.parse().map_err(|e| Rich::custom(span, e))))
                     .map(|num| Command::Frame(frame::Command::Switch(num)))
                     .padded(),
             )))
@@ -528,8 +526,7 @@ impl Command {
                     ),
                     sub_op(TRIGGER_COMMAND_BRKPT_TRIGGER_SUBCOMMAND)
                         .ignore_then(text::int(10))
-                        .from_str()
-                        .unwrapped()
+                        .try_map(|s: &str, span| s.parse().map_err(|e| Rich::custom(span, e)))
                         .map(|num| {
                             trigger::Command::AttachToDefined(trigger::TriggerEvent::Breakpoint(
                                 num,
@@ -537,8 +534,7 @@ impl Command {
                         }),
                     sub_op(TRIGGER_COMMAND_WP_TRIGGER_SUBCOMMAND)
                         .ignore_then(text::int(10))
-                        .from_str()
-                        .unwrapped()
+                        .try_map(|s: &str, span| s.parse().map_err(|e| Rich::custom(span, e)))
                         .map(|num| {
                             trigger::Command::AttachToDefined(trigger::TriggerEvent::Watchpoint(
                                 num,
